@@ -692,6 +692,37 @@ fn c17(tier: Tier) -> i32 {
         strings.push(sp.to_string());
         strings.push(format!("he said \"hi\" \\ {sp} end"));
     }
+    // every sequence of <= 2 (thorough 3) HTML-tokenizer-relevant tokens: comment open/close, script open/close
+    let toks = ["<!--", "<script>", "<script ", "</script>", "-->", "<!-->", "x"];
+    // (an opening tag followed by its closing tag is a component in the value grammar, not text)
+    let is_text = |s: &str| s.find("<script").map(|i| !s[i..].contains("</script>")).unwrap_or(true);
+    for a in toks {
+        for b in toks {
+            strings.push(format!("{a}{b}"));
+            if tier == Tier::Thorough {
+                for c in toks {
+                    strings.push(format!("{a}{b}{c}"));
+                }
+            }
+        }
+    }
+    strings.retain(|s| is_text(s));
+    // the same token sequences, each alone in a translation unit of its own (third project): what one string
+    // does to the tokenizer state is then not undone by a later string of the same unit
+    let mut tok_strings: Vec<String> = toks.iter().map(|t| t.to_string()).collect();
+    for a in toks {
+        for b in toks {
+            tok_strings.push(format!("{a}{b}"));
+            for c in toks {
+                if tier == Tier::Thorough || c == "x" {
+                    tok_strings.push(format!("{a}{b}{c}"));
+                }
+            }
+        }
+    }
+    tok_strings.retain(|s| is_text(s));
+    tok_strings.sort();
+    tok_strings.dedup();
     let units = [("en", "one"), ("en", "two"), ("fr", "one"), ("fr", "two")];
     let per_file = (strings.len() + 3) / 4;
     let mut cases = vec![];
@@ -767,6 +798,31 @@ fn c17(tier: Tier) -> i32 {
         n_pages += 1;
         cases.push((c, tables, namespaced));
     }
+    {
+        let ns_names: Vec<String> = (0..tok_strings.len()).map(|i| format!("t{i:03}")).collect();
+        let ns_refs: Vec<&str> = ns_names.iter().map(|s| s.as_str()).collect();
+        let mut p = Project::new(Config::simple("en", &["en"]).with_namespaces(&ns_refs));
+        let mut tables: BTreeMap<(String, String), Vec<String>> = BTreeMap::new();
+        for (ns, sv) in ns_names.iter().zip(&tok_strings) {
+            p.set_file(Some(ns), "en", vec![("s".into(), st(sv)), ("tail".into(), st("ok"))]);
+            tables.insert(("en".to_string(), ns.clone()), vec![sv.clone(), "ok".to_string()]);
+        }
+        let mut c = Case::new(&format!("c17_{}_tok", tier.name()), p.clone());
+        c.probe.features = vec!["dynamic_load"];
+        c.probe.items.push_str(C17_ITEMS);
+        for ns in &ns_names {
+            c.add(format!("serde_json::to_string(&I18nKeys::__i18n_request_translations__(Locale::en, I18nTranslationUnitsId::{ns})).unwrap()"), format!("TABLE en {ns}"), String::new());
+        }
+        for ns in &ns_names {
+            c.add(
+                format!("render_page(move || {{ let _ = futures::executor::block_on(async {{ td_string!(Locale::en, {ns}.tail).await.to_string() }}); }})"),
+                format!("PAGE touched [(\"en\", \"{ns}\")]"),
+                String::new(),
+            );
+            n_pages += 1;
+        }
+        cases.push((c, tables, true));
+    }
     // run
     let mut plain_cases = vec![];
     let mut metas = vec![];
@@ -790,7 +846,7 @@ fn c17(tier: Tier) -> i32 {
                         let want: std::collections::BTreeSet<&String> = tables[&(loc.to_string(), ns.to_string())].iter().collect();
                         let got: std::collections::BTreeSet<&String> = v.iter().collect();
                         if !want.is_subset(&got) {
-                            rep.violation(format!("C17/L3: server-function table of ({loc},{ns}) lacks literals of the file"), json!({}));
+                            rep.violation(format!("C17/L3: server-function table of ({loc},{ns}) lacks literals of the file, e.g. {:?}", want.difference(&got).take(3).collect::<Vec<_>>()), json!({}));
                         }
                         exported.insert((loc.to_string(), ns.to_string()), v);
                     }
@@ -808,7 +864,7 @@ fn c17(tier: Tier) -> i32 {
             };
             // which units did the page touch?
             let mut want_units: std::collections::BTreeSet<(String, String)> = Default::default();
-            for (loc, ns) in [("en", "one"), ("en", "two"), ("fr", "one"), ("fr", "two")] {
+            for (loc, ns) in tables.keys() {
                 if desc.contains(&format!("(\"{loc}\", \"{ns}\")")) {
                     want_units.insert((loc.to_string(), ns.to_string()));
                 }
@@ -849,7 +905,7 @@ fn c17(tier: Tier) -> i32 {
     rep.nontriv(n_pages);
     rep.sample(json!({"strings": ["\"\\", "</script>", "he said \"hi\" \\ </script> end", "\u{2028}a"]}));
     let mut cov = serde_json::Map::new();
-    cov.insert("rule".into(), json!("two probe crates built with dynamic_load + ssr (two namespaces x two locales; no namespaces): translation strings = all 196 two-character strings over 14 hostile characters plus </script>, </SCRIPT , <!--, -->, ]]>, U+2029, quotes, backtick, ${x}, newlines alone and inside a sentence with quotes and backslashes; pages = <I18nContextProvider> rendered natively to HTML for every ordered subset of touched units (65 with namespaces, 5 without) and a context-driven render with a locale switch in the middle; oracle: the <script> element is cut the way an HTML tokenizer cuts it (first `</script` + space, / or >), its body must be `window.__LEPTOS_I18N_TRANSLATIONS = <array literal>;` read by an ECMAScript literal reader (all JS escapes, no raw line terminators in strings), and its decoded value must list exactly the touched (locale, unit) pairs, each with the unit's table as exported by the generated server function"));
+    cov.insert("rule".into(), json!("two probe crates built with dynamic_load + ssr (two namespaces x two locales; no namespaces): translation strings = all 196 two-character strings over 14 hostile characters plus </script>, </SCRIPT , <!--, -->, ]]>, U+2029, quotes, backtick, ${x}, newlines alone and inside a sentence with quotes and backslashes, and every sequence of <= 2 (thorough 3) tokens over <!--, <script>, <script , </script>, -->, <!-->, x; pages = <I18nContextProvider> rendered natively to HTML for every ordered subset of touched units (65 with namespaces, 5 without) and a context-driven render with a locale switch in the middle; third probe crate: every such token sequence of <= 2 tokens (+ a trailing x; thorough <= 3) alone in a namespace of its own, one page per namespace; oracle: the <script> element is cut the way the WHATWG tokenizer cuts it (script data / escaped / double escaped states: after `<!--` then `<script` an end tag no longer closes the element), its body must be `window.__LEPTOS_I18N_TRANSLATIONS = <array literal>;` read by an ECMAScript literal reader (all JS escapes, no raw line terminators in strings), and its decoded value must list exactly the touched (locale, unit) pairs, each with the unit's table as exported by the generated server function"));
     cov.insert("exhaustive".into(), json!(true));
     rep.finish(cov, &["the hydrate-side consumer (init_translations, serde_wasm_bindgen) needs a browser: not executed"])
 }
